@@ -31,5 +31,6 @@ class Match(FilterFunction):
             # process-wide setting, and VERSION1 reads `||`, `&&`, `~~` and `--`
             # inside a character class as set operations.
             return bool(re.fullmatch(map_re(pattern), string, flags=re.VERSION0))
-        except (TypeError, re.error):
+        except (TypeError, re.error, RecursionError):
+            # RecursionError: a pattern nested too deeply for the regex engine.
             return False
